@@ -162,9 +162,10 @@ PROPS['C17'] = {
              '(roles, parked awaiters, lost-race count).'),
     'min_nontrivial': [200, 2000],
     'require_classes': ['shared_future_mt:awaiters_parked_before_resolution', 'shared_future_mt:awaiters_lost_race_to_ready'],
-    'single_thread_scenarios': ('shared_future_history',),
+    'single_thread_scenarios': ('shared_future_history', 'shared_future_trivial_types'),
     'jobs': [
         J('hist_asan', 'c17.cpp', 'asan', [30000, 1500000], scenario='shared_future_history', threads=1),
+        J('triv_asan', 'c17.cpp', 'asan', [30000, 1500000], scenario='shared_future_trivial_types', threads=1),
         J('mt_asan', 'c17.cpp', 'asan', [40000, 2000000], scenario='shared_future_mt'),
         J('mt_rel', 'c17.cpp', 'rel', [200000, 8000000], scenario='shared_future_mt'),
         J('mt_crel', 'c17.cpp', 'crel', [0, 3000000], scenario='shared_future_mt', tiers=(T,)),
@@ -435,9 +436,12 @@ PROPS['C13'] = {
     'min_nontrivial': [300, 3000],
     'require_classes': ['generator_programs:programs_with_cross_thread_completion', 'generator_programs:programs_dropping_the_generator_early',
                         'generator_programs:style: iterator', 'generator_programs:style: call->future->wait'],
+    'single_thread_scenarios': ('generator_string_values',),
     'jobs': [
         J('prog_asan', 'c13.cpp', 'asan', [30000, 1500000], scenario='generator_programs', threads=2),
         J('prog_rel', 'c13.cpp', 'rel', [60000, 4000000], scenario='generator_programs', threads=2),
+        J('str_asan', 'c13.cpp', 'asan', [20000, 800000], scenario='generator_string_values', threads=1),
+        J('str_rel', 'c13.cpp', 'rel', [40000, 2000000], scenario='generator_string_values', threads=1),
         J('prog_casan', 'c13.cpp', 'casan', [0, 800000], scenario='generator_programs', threads=2, tiers=(T,)),
         J('prog_crel', 'c13.cpp', 'crel', [0, 2000000], scenario='generator_programs', threads=2, tiers=(T,)),
     ],
